@@ -12,6 +12,11 @@ type txtGen struct {
 	rng       *RNG
 	params    map[string]STerm
 	printable bool // restrict to the printable domain of C15
+	// chainBudget > 0: the next comparison generated (at whatever nesting depth the generator happens to be:
+	// inside parentheses, under '!', in a method argument, at the top) gets a second comparison tail, which the
+	// documented grammar does not allow (comparisons do not chain); chained records that it happened
+	chainBudget int
+	chained     bool
 }
 
 var identPool = []string{"right", "owner", "resource", "operation", "user", "a", "b1", "has_role", "ns:sub", "x_y", "tenant", "allowed", "p"}
@@ -200,6 +205,13 @@ func (g *txtGen) expr(lvl, depth int) (string, SExpr) {
 		if depth > 0 && r.Chance(45) {
 			c := cmpOps[r.Intn(len(cmpOps))]
 			t2, ops2 := g.expr(4, depth-1)
+			if g.chainBudget > 0 {
+				g.chainBudget--
+				g.chained = true
+				c2 := cmpOps[r.Intn(len(cmpOps))]
+				t3, ops3 := g.expr(4, 0)
+				return t + g.ws() + c.txt + g.ws() + t2 + g.ws() + c2.txt + g.ws() + t3, append(append(append(ops, ops2...), bin(c.bin)), append(ops3, bin(c2.bin))...)
+			}
 			return t + g.ws() + c.txt + g.ws() + t2, append(append(ops, ops2...), bin(c.bin))
 		}
 		return t, ops
